@@ -245,3 +245,27 @@ func VerifHarness_C14_Case() {
 	}
 	verifrt.Reach("end")
 }
+
+// Characters beyond the basic plane (four bytes in UTF-8, a surrogate pair in UTF-16) are one character each: length,
+// toChars, substring and indexOf count them once. The last byte of the character is symbolic, the text around it too.
+func VerifHarness_C14_SupplementaryCharacters() {
+	b3 := verifrt.NondetStringN("lastByte", 1)
+	verifrt.Assume(b3[0] >= 0x80 && b3[0] <= 0xBF)
+	ch := string([]byte{0xF0, 0x9F, 0x98, b3[0]})
+	head, tail := verifrt.NondetString("head", 1), verifrt.NondetString("tail", 1)
+	verifrt.Assume((len(head) == 0 || head[0] < 0x80) && (len(tail) == 0 || tail[0] < 0x80))
+	s := head + ch + tail
+	chars := int64(len(head) + 1 + len(tail))
+	got, err := Length(verifCtx(), verifReceiver(s))
+	n, ok := verifInt(got)
+	verifrt.Assert(err == nil && ok && n == chars, "length-counts-characters")
+	cs, err2 := ToChars(verifCtx(), verifReceiver(s))
+	verifrt.Assert(err2 == nil && int64(len(cs)) == chars, "tochars-count-equals-length")
+	sub, err3 := Substring(verifCtx(), verifReceiver(s), verifLit(system.Integer(len(head))), verifLit(system.Integer(1)))
+	r, isStr := verifStr(sub)
+	verifrt.Assert(err3 == nil && isStr && r == ch, "substring-takes-the-whole-character")
+	idx, err4 := IndexOf(verifCtx(), verifReceiver(s), verifLit(system.String(ch)))
+	i, okI := verifInt(idx)
+	verifrt.Assert(err4 == nil && okI && i == int64(len(head)), "indexof-counts-characters")
+	verifrt.Reach("end")
+}
